@@ -637,6 +637,10 @@ func c07Storm(c *fw.Ctx, i int) {
 	workers := r.Pick(2, 4, 4, 8)
 	readers := r.Pick(0, 2, 4, 4, 8)
 	calls := r.Pick(40, 100, 150)
+	if i%64 == 5 {
+		// very many callers at once (more than any fixed number of queue slots an implementation might reserve)
+		workers, readers, calls = r.Pick(130, 200, 300, 600), r.Pick(0, 2), r.Pick(3, 6)
+	}
 	ahead := r.Range(10, workers*calls*2/3)
 	seq := rtp.NewFixedSequencer(uint16(65536 - ahead))
 	old := runtime.GOMAXPROCS(r.Pick(2, 4, 16, 16))
@@ -644,6 +648,7 @@ func c07Storm(c *fw.Ctx, i int) {
 	var stop atomic.Bool
 	var bad atomic.Value
 	var wg, rg sync.WaitGroup
+	drawn := make([][]uint16, workers) // what every worker was handed, for the exactly-once check afterwards
 	for q := 0; q < readers; q++ {
 		rg.Add(1)
 		go func() {
@@ -659,11 +664,15 @@ func c07Storm(c *fw.Ctx, i int) {
 	defer tm.Stop()
 	for w := 0; w < workers; w++ {
 		wg.Add(1)
+		w := w
 		go func() {
 			defer wg.Done()
 			var prev uint64
+			mine := make([]uint16, 0, calls)
+			defer func() { drawn[w] = mine }()
 			for k := 0; k < calls; k++ {
 				v := seq.NextSequenceNumber()
+				mine = append(mine, v)
 				cnt := seq.RollOverCount()
 				switch {
 				case v < 1<<15 && cnt < 1:
@@ -685,6 +694,21 @@ func c07Storm(c *fw.Ctx, i int) {
 	if msg, ok := bad.Load().(string); ok {
 		c.Fail("C07/concurrent/rollover-count-behind-or-ahead-of-the-values-handed-out", msg, fw.W("workers", workers, "polling_readers", readers, "calls_each", calls, "values_before_the_wrap", ahead))
 		return
+	}
+	// exactly once: the values handed out are start, start+1, ... without gap or duplicate
+	seen := make(map[uint16]int, workers*calls)
+	for _, l := range drawn {
+		for _, v := range l {
+			seen[v]++
+		}
+	}
+	first := uint16(65536 - ahead)
+	for k := 0; k < workers*calls; k++ {
+		if n := seen[first+uint16(k)]; n != 1 {
+			c.Fail("C07/concurrent/values-not-handed-out-exactly-once", fmt.Sprintf("the value %d was handed out %d times (%d callers, %d values drawn from start %d)", first+uint16(k), n, workers, workers*calls, first),
+				fw.W("workers", workers, "polling_readers", readers, "calls_each", calls))
+			return
+		}
 	}
 	if final := seq.RollOverCount(); final != 1 {
 		c.Fail("C07/concurrent/rollover-count-behind-or-ahead-of-the-values-handed-out", fmt.Sprintf("after the storm RollOverCount = %d, the value 0 was handed out once", final), fw.W("workers", workers, "polling_readers", readers))
